@@ -1,14 +1,18 @@
 //! C08 — arrays behave identically whatever their internal representation.
 //! Generates array expressions (terms), realises each (a) through the public `ArrValue`
-//! constructors and (b) through the evaluator from source text, probes `len` and `get`/`a[i]` at
-//! every index around the bounds, and writes the answers next to the `arr.probe` model operation.
+//! constructors and (b) through the evaluator from source text, probes `len`, `is_cheap` and ALL
+//! THREE accessors (`get`, `get_lazy(i).evaluate()`, `get_cheap`) of the resulting `ArrValue` at
+//! every index around the bounds, plus `a[i]` through the `Index` arm (whole, negative, fractional,
+//! huge indices), and writes the answers next to the `arr.probe` / `arr.index` model operations.
+//! `arr.rangelen` probes the public range constructors with arbitrary `i32` pairs (wrapping length),
+//! `arr.mkarr_guard` the typed-argument guard of `std.makeArray`.
 use std::num::NonZeroU32;
 
 use jrsonnet_evaluator::{
 	error::ErrorKind,
 	function::NativeFn,
 	typed::FromUntyped,
-	val::ArrValue,
+	val::{ArrValue, ArrayLike},
 	Thunk, Val,
 };
 use serde_json::{json, Value};
@@ -25,19 +29,70 @@ pub enum T {
 	Rep(Box<T>, usize),
 	Map(Box<T>, bool),
 	Filter(Box<T>),
+	/// std.stringChars(s) : CharArray
+	Chars(String),
+	/// std.encodeUTF8(s) : BytesArray
+	Bytes(String),
+	/// std.objectValues({k000: x0, ...}) : PickObjectValues
+	ObjVals(Vec<i64>),
+	/// std.makeArray(n, function(i) i*3+1) / std.makeArray(n, function(i) c)
+	MkArr(usize, Option<i64>),
+}
+
+/// one-character strings (CharArray elements) travel as tagged code points
+const CHAR_TAG: i64 = 1 << 40;
+
+#[derive(Clone, Copy, PartialEq, Eq)]
+enum Route {
+	Direct,
+	Eval,
 }
 
 impl T {
-	fn json(&self) -> Value {
+	/// the term as the model sees it; the representation of a literal depends on the route:
+	/// direct = EagerArray / LazyArray, source = ExprArray (`[]` = empty range) / comprehension
+	fn json(&self, r: Route) -> Value {
 		match self {
-			T::Lit(xs, _) => json!({"k":"lit","xs":xs}),
+			T::Lit(xs, kind) => {
+				let c = match (r, kind) {
+					(Route::Direct, 0) => "eager",
+					(Route::Eval, 0) => "expr",
+					_ => "lazy",
+				};
+				json!({"k":"lit","xs":xs,"c":c})
+			}
 			T::Range(a, b) => json!({"k":"range","a":a,"b":b}),
-			T::Slice(t, s, e, st) => json!({"k":"slice","t":t.json(),"s":s,"e":e,"st":st}),
-			T::Cat(a, b) => json!({"k":"cat","a":a.json(),"b":b.json()}),
-			T::Rev(t) => json!({"k":"rev","t":t.json()}),
-			T::Rep(t, n) => json!({"k":"rep","t":t.json(),"n":n}),
-			T::Map(t, wi) => json!({"k":"map","t":t.json(),"wi":wi}),
-			T::Filter(t) => json!({"k":"filter","t":t.json()}),
+			T::Slice(t, s, e, st) => json!({"k":"slice","t":t.json(r),"s":s,"e":e,"st":st}),
+			T::Cat(a, b) => json!({"k":"cat","a":a.json(r),"b":b.json(r)}),
+			T::Rev(t) => json!({"k":"rev","t":t.json(r)}),
+			T::Rep(t, n) => json!({"k":"rep","t":t.json(r),"n":n}),
+			T::Map(t, wi) => json!({"k":"map","t":t.json(r),"wi":wi}),
+			T::Filter(t) => json!({"k":"filter","t":t.json(r)}),
+			T::Chars(s) => {
+				json!({"k":"chars","xs":s.chars().map(|c| c as i64 + CHAR_TAG).collect::<Vec<_>>()})
+			}
+			T::Bytes(s) => json!({"k":"bytes","xs":s.bytes().map(i64::from).collect::<Vec<_>>()}),
+			T::ObjVals(xs) => json!({"k":"objvals","xs":xs}),
+			T::MkArr(n, triv) => json!({"k":"mkarr","n":n,"triv":triv}),
+		}
+	}
+	/// all elements are numbers (the fixed mapper / filter functions do arithmetic)
+	fn numeric(&self) -> bool {
+		match self {
+			T::Chars(_) => false,
+			T::Lit(..) | T::Range(..) | T::Bytes(_) | T::ObjVals(_) | T::MkArr(..) => true,
+			T::Slice(t, ..) | T::Rev(t) | T::Rep(t, _) | T::Map(t, _) | T::Filter(t) => t.numeric(),
+			T::Cat(a, b) => a.numeric() && b.numeric(),
+		}
+	}
+	/// can be built through the public `ArrValue` constructors (PickObjectValues is crate-private,
+	/// makeArray is a stdlib builtin)
+	fn has_direct(&self) -> bool {
+		match self {
+			T::ObjVals(_) | T::MkArr(..) => false,
+			T::Lit(..) | T::Range(..) | T::Chars(_) | T::Bytes(_) => true,
+			T::Slice(t, ..) | T::Rev(t) | T::Rep(t, _) | T::Map(t, _) | T::Filter(t) => t.has_direct(),
+			T::Cat(a, b) => a.has_direct() && b.has_direct(),
 		}
 	}
 	fn src(&self) -> String {
@@ -45,10 +100,22 @@ impl T {
 			v.map_or(String::new(), |v| v.to_string())
 		}
 		match self {
-			T::Lit(xs, _) => format!(
+			T::Lit(xs, 0) => format!(
 				"[{}]",
 				xs.iter().map(ToString::to_string).collect::<Vec<_>>().join(",")
 			),
+			T::Lit(xs, _) => format!(
+				"[x for x in [{}]]",
+				xs.iter().map(ToString::to_string).collect::<Vec<_>>().join(",")
+			),
+			T::Chars(s) => format!("std.stringChars({})", serde_json::to_string(s).expect("str")),
+			T::Bytes(s) => format!("std.encodeUTF8({})", serde_json::to_string(s).expect("str")),
+			T::ObjVals(xs) => format!(
+				"std.objectValues({{{}}})",
+				xs.iter().enumerate().map(|(i, x)| format!("k{i:03}:{x}")).collect::<Vec<_>>().join(",")
+			),
+			T::MkArr(n, None) => format!("std.makeArray({n},function(i) i*3+1)"),
+			T::MkArr(n, Some(c)) => format!("std.makeArray({n},function(i) {c})"),
 			T::Range(a, b) => format!("std.range({a},{b})"),
 			T::Slice(t, s, e, st) => format!(
 				"({})[{}:{}:{}]",
@@ -67,8 +134,8 @@ impl T {
 	}
 	fn size(&self) -> usize {
 		match self {
-			T::Lit(xs, _) => 1 + xs.len() / 8,
-			T::Range(..) => 1,
+			T::Lit(xs, _) | T::ObjVals(xs) => 1 + xs.len() / 8,
+			T::Range(..) | T::Chars(_) | T::Bytes(_) | T::MkArr(..) => 1,
 			T::Slice(t, ..) | T::Rev(t) | T::Rep(t, _) | T::Map(t, _) | T::Filter(t) => 1 + t.size(),
 			T::Cat(a, b) => 1 + a.size() + b.size(),
 		}
@@ -83,6 +150,10 @@ impl T {
 			T::Rep(..) => "rep",
 			T::Map(..) => "map",
 			T::Filter(..) => "filter",
+			T::Chars(..) => "chars",
+			T::Bytes(..) => "bytes",
+			T::ObjVals(..) => "objvals",
+			T::MkArr(..) => "mkarr",
 		}
 	}
 }
@@ -121,16 +192,28 @@ fn direct(t: &T, f: &Fns) -> ArrValue {
 		T::Map(t, false) => direct(t, f).map(f.map.clone()),
 		T::Map(t, true) => direct(t, f).map_with_index(f.mapi.clone()),
 		T::Filter(t) => direct(t, f).filter(f.filt.clone()).expect("filter"),
+		T::Chars(s) => ArrValue::chars(s.chars()),
+		T::Bytes(s) => ArrValue::bytes(s.as_bytes().into()),
+		T::ObjVals(_) | T::MkArr(..) => unreachable!("has_direct checked"),
 	}
 }
 
 fn show(v: Result<jrsonnet_evaluator::Result<Option<Val>>, String>) -> String {
 	match v {
 		Ok(Ok(Some(Val::Num(n)))) => format!("v:{}", n.get() as i64),
+		Ok(Ok(Some(Val::Str(s)))) => {
+			let s = s.to_string();
+			let mut it = s.chars();
+			match (it.next(), it.next()) {
+				(Some(c), None) => format!("v:{}", c as i64 + CHAR_TAG),
+				_ => "other".into(),
+			}
+		}
 		Ok(Ok(Some(_))) => "other".into(),
 		Ok(Ok(None)) => "oob".into(),
 		Ok(Err(e)) => match e.error() {
 			ErrorKind::ArrayBoundsError(..) => "oob".into(),
+			ErrorKind::FractionalIndex => "frac".into(),
 			_ => format!("err:{}", e.error()),
 		},
 		Err(_) => "panic".into(),
@@ -155,16 +238,118 @@ fn probes(len: usize) -> Vec<usize> {
 	v
 }
 
+/// every observation of one `ArrValue`: `len`, `is_cheap`, and the three accessors at `idx`
+fn probe_arr(arr: &ArrValue, idx: &[usize]) -> serde_json::Map<String, Value> {
+	let get: Vec<String> = idx.iter().map(|i| show(guarded(|| arr.get(*i)))).collect();
+	let lazy: Vec<String> = idx
+		.iter()
+		.map(|i| show(guarded(|| arr.get_lazy(*i).map(|t| t.evaluate()).transpose())))
+		.collect();
+	let cheap: Vec<String> = idx
+		.iter()
+		.map(|i| show(guarded(|| Ok(<ArrValue as ArrayLike>::get_cheap(arr, *i)))))
+		.collect();
+	let mut m = serde_json::Map::new();
+	m.insert("len".into(), json!(arr.len()));
+	m.insert("get".into(), json!(get));
+	m.insert("lazy".into(), json!(lazy));
+	m.insert("cheap".into(), json!(cheap));
+	m.insert("is_cheap".into(), json!(arr.is_cheap()));
+	m
+}
+
+fn failed(why: &str) -> Value {
+	json!({"len":0,"get":[why],"lazy":[why],"cheap":[why],"is_cheap":false})
+}
+
+/// the double `x` as `m / 2^e` (`m` a decimal string: it can exceed 64 bits)
+fn dyadic(x: f64) -> (String, u32) {
+	if x == 0.0 {
+		return ("0".into(), 0);
+	}
+	let bits = x.to_bits();
+	let neg = bits >> 63 == 1;
+	let exp = ((bits >> 52) & 0x7ff) as i32;
+	let frac = bits & ((1u64 << 52) - 1);
+	let (mut mant, mut e2) = if exp == 0 { (frac, -1074) } else { (frac | (1u64 << 52), exp - 1075) };
+	if e2 >= 0 {
+		return (format!("{x:.0}"), 0);
+	}
+	while mant % 2 == 0 && e2 < 0 {
+		mant /= 2;
+		e2 += 1;
+	}
+	(format!("{}{}", if neg { "-" } else { "" }, mant), (-e2) as u32)
+}
+
+/// index numbers for the `Index` arm: (value, "the language has a definite answer")
+fn index_probes(len: usize) -> Vec<(f64, bool)> {
+	let l = len as f64;
+	let eps = f64::EPSILON;
+	let mut v = vec![
+		(-1.0, true),
+		(-2.0, true),
+		(-1e300, true),
+		(-2147483649.0, true),
+		(0.0, true),
+		(l - 1.0, true),
+		(l, true),
+		(l + 1.0, true),
+		(0.5, true),
+		(1.5, true),
+		(l + 0.25, true),
+		(2.0 * eps, true),
+		(1.0 + 2.0 * eps, true),
+		(2147483648.0, true),
+		(4294967296.0, true),
+		(4294967297.0, true),
+		(9007199254740992.0, true),
+		(2e19, true),
+		(1e300, true),
+		// tolerated / sign-dependent: the model answers, no reference meaning claimed
+		(eps, false),
+		(1.0 + eps, false),
+		(eps / 256.0, false),
+		(5e-324, false),
+		(-0.5, false),
+		(-eps / 256.0, false),
+		(-5e-324, false),
+	];
+	if len >= 1 {
+		v.push((l - 0.5, true));
+		v.push((l - 1.0 + eps * l.max(1.0), false));
+	}
+	v
+}
+
+fn gen_str(rng: &mut Rng) -> String {
+	let alphabet = ['a', 'b', 'z', '0', ' ', 'é', 'ß', '€', '中', '😀', '\u{7f}', '"', '\\'];
+	let n = *rng.pick(&[0usize, 1, 2, 3, 5]);
+	(0..n).map(|_| *rng.pick(&alphabet)).collect()
+}
+
 fn gen_base(rng: &mut Rng, big: bool) -> T {
 	if big && rng.chance(1, 3) {
 		let n = *rng.pick(&[997i64, 998, 999, 1000, 1001]);
-		return T::Range(1, n);
+		return match rng.below(4) {
+			0 => T::MkArr(n as usize, None),
+			1 => T::MkArr(n as usize, Some(7)),
+			_ => T::Range(1, n),
+		};
 	}
-	match rng.below(5) {
-		0 => {
+	match rng.below(10) {
+		0 | 1 => {
 			let a = rng.range(-3, 4);
 			T::Range(a, a + rng.range(-2, 6))
 		}
+		2 => T::Chars(gen_str(rng)),
+		3 => T::Bytes(gen_str(rng)),
+		4 => {
+			let n = *rng.pick(&[0usize, 1, 2, 3, 5]);
+			let start = rng.range(-4, 40);
+			T::ObjVals((0..n as i64).map(|i| start + i * 2).collect())
+		}
+		5 => T::MkArr(*rng.pick(&[0usize, 1, 2, 3, 5]), if rng.chance(1, 3) { Some(rng.range(0, 9)) } else { None }),
 		_ => {
 			let n = *rng.pick(&[0usize, 1, 2, 3, 5]);
 			let start = rng.range(-4, 40);
@@ -204,8 +389,22 @@ fn gen(rng: &mut Rng, depth: usize, big: bool) -> T {
 		}
 		5 => T::Rev(Box::new(gen(rng, depth - 1, big))),
 		6 | 7 => T::Rep(Box::new(gen(rng, depth - 1, false)), rng.below(4)),
-		8 => T::Map(Box::new(gen(rng, depth - 1, big)), rng.chance(1, 2)),
-		_ => T::Filter(Box::new(gen(rng, depth - 1, big))),
+		8 => {
+			let t = gen(rng, depth - 1, big);
+			if t.numeric() {
+				T::Map(Box::new(t), rng.chance(1, 2))
+			} else {
+				T::Rev(Box::new(t))
+			}
+		}
+		_ => {
+			let t = gen(rng, depth - 1, big);
+			if t.numeric() {
+				T::Filter(Box::new(t))
+			} else {
+				T::Rev(Box::new(t))
+			}
+		}
 	}
 }
 
@@ -219,13 +418,28 @@ fn enumerate_depth1(out: &mut Vec<T>) {
 	bases.push(T::Lit(vec![4, 7, 8], 1));
 	bases.push(T::Range(2, 6));
 	bases.push(T::Range(3, 2));
+	// the remaining representations (index 8..)
+	bases.push(T::Lit(vec![], 1));
+	bases.push(T::Chars("aé€😀z".into()));
+	bases.push(T::Chars(String::new()));
+	bases.push(T::Bytes("aé€😀".into()));
+	bases.push(T::ObjVals(vec![5, 6, 8]));
+	bases.push(T::ObjVals(vec![]));
+	bases.push(T::MkArr(0, None));
+	bases.push(T::MkArr(4, None));
+	bases.push(T::MkArr(3, Some(6)));
+	bases.push(T::MkArr(0, Some(6)));
 	let idx: Vec<Option<i64>> = vec![None, Some(-7), Some(-2), Some(-1), Some(0), Some(1), Some(2), Some(4), Some(9)];
 	let steps: Vec<Option<u64>> = vec![None, Some(1), Some(2), Some(3)];
-	for b in &bases {
+	for (bi, b) in bases.iter().enumerate() {
 		out.push(b.clone());
 		for s in &idx {
 			for e in &idx {
 				for st in &steps {
+					// the full slice grid over the original bases, a thinner one over the new ones
+					if bi >= 8 && (s.map_or(false, |v| v == 9 || v == -7) || e.map_or(false, |v| v == 9 || v == -7)) {
+						continue;
+					}
 					out.push(T::Slice(Box::new(b.clone()), *s, *e, *st));
 				}
 			}
@@ -234,9 +448,11 @@ fn enumerate_depth1(out: &mut Vec<T>) {
 		for n in 0..4 {
 			out.push(T::Rep(Box::new(b.clone()), n));
 		}
-		out.push(T::Map(Box::new(b.clone()), false));
-		out.push(T::Map(Box::new(b.clone()), true));
-		out.push(T::Filter(Box::new(b.clone())));
+		if b.numeric() {
+			out.push(T::Map(Box::new(b.clone()), false));
+			out.push(T::Map(Box::new(b.clone()), true));
+			out.push(T::Filter(Box::new(b.clone())));
+		}
 		for c in &bases {
 			out.push(T::Cat(Box::new(b.clone()), Box::new(c.clone())));
 		}
@@ -252,6 +468,18 @@ fn enumerate_depth1(out: &mut Vec<T>) {
 		T::Cat(Box::new(bases[1].clone()), Box::new(bases[2].clone())),
 		T::Cat(Box::new(T::Range(1, 999)), Box::new(bases[2].clone())),
 		T::Cat(Box::new(T::Range(1, 998)), Box::new(bases[2].clone())),
+		// cheap views of cheap data (so that `extended` copies them through `get_cheap`)
+		T::Slice(Box::new(T::Range(1, 9)), Some(1), None, Some(3)),
+		T::Slice(Box::new(T::Bytes("abcdefg".into())), Some(1), Some(-1), Some(2)),
+		T::Rev(Box::new(T::Range(1, 4))),
+		T::Rep(Box::new(T::Range(1, 3)), 2),
+		T::Slice(Box::new(T::Rev(Box::new(T::Range(1, 9)))), Some(2), None, Some(2)),
+		T::Cat(Box::new(T::Range(1, 999)), Box::new(T::Range(5, 6))),
+		T::Slice(Box::new(T::Cat(Box::new(T::Range(1, 999)), Box::new(T::Range(5, 9)))), Some(995), None, Some(2)),
+		T::Filter(Box::new(T::Range(1, 6))),
+		T::Chars("xyz".into()),
+		T::MkArr(4, None),
+		T::ObjVals(vec![1, 2, 3, 4]),
 	];
 	for b in &inner {
 		out.push(b.clone());
@@ -264,12 +492,60 @@ fn enumerate_depth1(out: &mut Vec<T>) {
 		}
 		out.push(T::Rev(Box::new(b.clone())));
 		out.push(T::Rep(Box::new(b.clone()), 2));
-		out.push(T::Map(Box::new(b.clone()), false));
-		out.push(T::Filter(Box::new(b.clone())));
+		if b.numeric() {
+			out.push(T::Map(Box::new(b.clone()), false));
+			out.push(T::Filter(Box::new(b.clone())));
+		}
 		for c in &inner {
 			out.push(T::Cat(Box::new(b.clone()), Box::new(c.clone())));
 		}
 	}
+}
+
+/// `arr.rangelen`: the public range constructors with arbitrary `i32` pairs
+fn range_cases(w: &mut CaseWriter) -> usize {
+	let pts: [i64; 12] = [
+		-2147483648, -2147483647, -3, -2, -1, 0, 1, 2, 5, 1000, 2147483646, 2147483647,
+	];
+	let mut n = 0;
+	for &s in &pts {
+		for &e in &pts {
+			for excl in [false, true] {
+				let built = guarded(|| {
+					if excl {
+						ArrValue::range_exclusive(s as i32, e as i32)
+					} else {
+						ArrValue::range_inclusive(s as i32, e as i32)
+					}
+				});
+				let op = |idx: &[usize]| json!({"op":"arr.rangelen","s":s,"e":e,"excl":excl,"idx":idx,"size":1});
+				match built {
+					Ok(arr) => {
+						let len = guarded(|| arr.len());
+						let l = len.clone().unwrap_or(0);
+						let mut idx: Vec<usize> = vec![0, 1, 2];
+						if l > 3 {
+							idx.extend([l - 1, l, l.saturating_add(1)]);
+						}
+						idx.sort_unstable();
+						idx.dedup();
+						let get: Vec<String> = idx.iter().map(|i| show(guarded(|| arr.get(*i)))).collect();
+						let cheap: Vec<String> = idx
+							.iter()
+							.map(|i| show(guarded(|| Ok(<ArrValue as ArrayLike>::get_cheap(&arr, *i)))))
+							.collect();
+						w.case(
+							op(&idx),
+							json!({"len": len.map_or("panic".to_string(), |l| l.to_string()), "get": get, "cheap": cheap}),
+						);
+					}
+					Err(_) => w.case(op(&[0]), json!({"len":"panic","get":["panic"],"cheap":["panic"]})),
+				}
+				n += 1;
+			}
+		}
+	}
+	n
 }
 
 pub fn run(opts: &Opts) {
@@ -292,42 +568,55 @@ pub fn run(opts: &Opts) {
 		terms.push(gen(&mut rng, depth, i % 7 == 0));
 	}
 	let mut hist = std::collections::BTreeMap::<&'static str, usize>::new();
+	let mut cheap_hist = std::collections::BTreeMap::<String, usize>::new();
 	let mut n_direct = 0usize;
 	let mut n_eval = 0usize;
-	for t in &terms {
+	let mut n_index = 0usize;
+	for (ti, t) in terms.iter().enumerate() {
 		*hist.entry(t.top()).or_default() += 1;
-		let tj = t.json();
 		// (a) direct constructors
-		let built = guarded(|| direct(t, &fns));
-		match built {
-			Ok(arr) => {
-				let len = arr.len();
-				let idx = probes(len.min(5000));
-				let got: Vec<String> =
-					idx.iter().map(|i| show(guarded(|| arr.get(*i)))).collect();
-				w.case(
-					json!({"op":"arr.probe","via":"direct","t":tj,"idx":idx,"size":t.size()}),
-					json!({"len":len,"get":got}),
-				);
+		if t.has_direct() {
+			let tj = t.json(Route::Direct);
+			let built = guarded(|| direct(t, &fns));
+			match built {
+				Ok(arr) => {
+					let idx = probes(arr.len().min(5000));
+					*cheap_hist.entry(format!("direct:{}", arr.is_cheap())).or_default() += 1;
+					w.case(
+						json!({"op":"arr.probe","via":"direct","t":tj,"idx":idx,"size":t.size()}),
+						Value::Object(probe_arr(&arr, &idx)),
+					);
+				}
+				Err(_) => {
+					w.case(
+						json!({"op":"arr.probe","via":"direct","t":tj,"idx":[0],"size":t.size()}),
+						failed("panic"),
+					);
+				}
 			}
-			Err(_) => {
-				w.case(
-					json!({"op":"arr.probe","via":"direct","t":tj,"idx":[0],"size":t.size()}),
-					json!({"len":0,"get":["panic"]}),
-				);
-			}
+			n_direct += 1;
 		}
-		n_direct += 1;
-		// (b) through the evaluator: `a[i]` with the Index arm, std.length
+		// (b) through the evaluator: the resulting ArrValue itself, `a[i]` with the Index arm,
+		// std.length
+		let tj = t.json(Route::Eval);
 		let src = t.src();
-		let code = format!("local a = {src}; {{ len: std.length(a), at: function(i) a[i] }}");
+		let code = format!("local a = {src}; {{ arr: a, len: std.length(a), at: function(i) a[i] }}");
 		let r = guarded(|| s.evaluate_snippet("<c08>".to_owned(), code.clone()));
+		let fail = |w: &mut CaseWriter, why: String| {
+			let mut f = failed(&why);
+			f["at"] = json!([why]);
+			w.case(
+				json!({"op":"arr.probe","via":"eval","at":true,"src":src,"t":tj,"idx":[0],"size":t.size()}),
+				f,
+			);
+		};
 		match r {
 			Ok(Ok(Val::Obj(o))) => {
 				let len = guarded(|| o.get("len".into()));
 				let at = guarded(|| o.get("at".into()));
-				match (len, at) {
-					(Ok(Ok(Some(Val::Num(n)))), Ok(Ok(Some(at)))) => {
+				let arr = guarded(|| o.get("arr".into()));
+				match (len, at, arr) {
+					(Ok(Ok(Some(Val::Num(n)))), Ok(Ok(Some(at))), Ok(Ok(Some(Val::Arr(arr))))) => {
 						let len = n.get() as usize;
 						let idx = probes(len.min(5000));
 						let at: Result<NativeFn!((f64) -> Val), _> = FromUntyped::from_untyped(at);
@@ -336,40 +625,80 @@ pub fn run(opts: &Opts) {
 							.iter()
 							.map(|i| show(guarded(|| at.call(*i as f64).map(Some))))
 							.collect();
+						let mut m = probe_arr(&arr, &idx);
+						// std.length must agree with ArrValue::len
+						if arr.len() != len {
+							m.insert("len".into(), json!(format!("std.length={len} but len()={}", arr.len())));
+						}
+						m.insert("at".into(), json!(got));
+						*cheap_hist.entry(format!("eval:{}", arr.is_cheap())).or_default() += 1;
 						w.case(
-							json!({"op":"arr.probe","via":"eval","src":src,"t":tj,"idx":idx,"size":t.size()}),
-							json!({"len":len,"get":got}),
+							json!({"op":"arr.probe","via":"eval","at":true,"src":src,"t":tj,"idx":idx,"size":t.size()}),
+							Value::Object(m),
 						);
+						// the Index arm with negative / fractional / huge numbers
+						if ti < n_enum && ti % 3 == 0 || ti >= n_enum && ti % 4 == 0 {
+							for strict in [true, false] {
+								let ps: Vec<f64> = index_probes(len)
+									.into_iter()
+									.filter(|(_, st)| *st == strict)
+									.map(|(x, _)| x)
+									.collect();
+								let ix: Vec<Value> = ps
+									.iter()
+									.map(|x| {
+										let (m, e) = dyadic(*x);
+										json!({"m":m,"e":e,"_x":x})
+									})
+									.collect();
+								let got: Vec<String> = ps
+									.iter()
+									.map(|x| show(guarded(|| at.call(*x).map(Some))))
+									.collect();
+								w.case(
+									json!({"op":"arr.index","via":"eval","strict":strict,"src":src,"t":tj,"ix":ix,"size":t.size()}),
+									json!({"at":got}),
+								);
+								n_index += 1;
+							}
+						}
 					}
-					(l, _) => {
+					(l, _, _) => {
 						let why = match l {
 							Ok(Ok(_)) => "len-not-num".to_string(),
 							Ok(Err(e)) => format!("err:{}", e.error()),
 							Err(_) => "panic".to_string(),
 						};
-						w.case(
-							json!({"op":"arr.probe","via":"eval","src":src,"t":tj,"idx":[0],"size":t.size()}),
-							json!({"len":0,"get":[why]}),
-						);
+						fail(&mut w, why);
 					}
 				}
 			}
 			Ok(Ok(_)) => unreachable!(),
-			Ok(Err(e)) => w.case(
-				json!({"op":"arr.probe","via":"eval","src":src,"t":tj,"idx":[0],"size":t.size()}),
-				json!({"len":0,"get":[format!("err:{}", e.error())]}),
-			),
-			Err(_) => w.case(
-				json!({"op":"arr.probe","via":"eval","src":src,"t":tj,"idx":[0],"size":t.size()}),
-				json!({"len":0,"get":["panic"]}),
-			),
+			Ok(Err(e)) => fail(&mut w, format!("err:{}", e.error())),
+			Err(_) => fail(&mut w, "panic".to_string()),
 		}
 		n_eval += 1;
 	}
+	let n_range = range_cases(&mut w);
+	// the typed-argument guard of std.makeArray (valid huge sizes are not probed: the mapped
+	// array allocates its cache eagerly)
+	let mut n_guard = 0usize;
+	for sz in [-2147483649i64, -2147483648, -5, -1, 0, 1, 3, 1000, 2147483648, 2147483653, 4294967296] {
+		let code = format!("std.length(std.makeArray({sz}, function(i) i*3+1))");
+		let r = guarded(|| s.evaluate_snippet("<c08g>".to_owned(), code.clone()));
+		let ok = matches!(r, Ok(Ok(_)));
+		let panicked = r.is_err();
+		w.case(
+			json!({"op":"arr.mkarr_guard","sz":sz,"size":1}),
+			if panicked { json!({"ok":"panic"}) } else { json!({"ok":ok}) },
+		);
+		n_guard += 1;
+	}
 	let meta = json!({
 		"engine":"c08","cases":w.n,"enumerated":n_enum,"random":n_rand,
-		"direct":n_direct,"eval":n_eval,"top_constructor_hist":hist,
-		"rule":"array terms over {lit,range,slice,cat,rev,rep,map,filter}: systematic depth<=2 enumeration + seeded random to depth 4(quick)/5(thorough); each probed through ArrValue constructors and through evaluated source at every index 0..len+2 (sampled around bounds and the 1000-element concat threshold for long arrays)"
+		"direct":n_direct,"eval":n_eval,"index_cases":n_index,"range_pairs":n_range,"makearray_guard":n_guard,
+		"top_constructor_hist":hist,"is_cheap_hist":cheap_hist,
+		"rule":"array terms over {lit(eager|lazy|expr|comprehension),range,slice,cat,rev,rep,map,filter,stringChars,encodeUTF8,objectValues,makeArray}: systematic depth<=2 enumeration + seeded random to depth 4(quick)/5(thorough); each realised through ArrValue constructors and through evaluated source, the resulting ArrValue probed with len/is_cheap/get/get_lazy().evaluate()/get_cheap at every index 0..len+2 (sampled around bounds and the 1000-element concat threshold for long arrays) and a[i] through the Index arm; a[n] with negative/fractional/huge n; range_inclusive/range_exclusive over a 12x12 grid of i32 pairs; std.makeArray size guard"
 	});
 	w.finish(meta, &opts.out);
 }
